@@ -98,8 +98,30 @@ def build_frame(panel, scale=1.0, rename=None, date_shift=0, permute=True, id_in
     df[panel['resp_col']] = df[panel['resp_col']].astype('int64')
   if panel.get('extra_col'):
     df['unused'] = 1.5
+  gd = panel.get('geo_dtype')
+  if gd == 'object' or (gd == 'mixed' and df['geo'].map(lambda v: isinstance(v, int)).all()):
+    # Python ints (or ints and strings side by side) in an object column, as left by a merge or by read_csv(dtype=object)
+    vals_g = list(df['geo'])
+    if gd == 'mixed':
+      flip = set(sorted(set(vals_g))[::2])
+      vals_g = [str(v) if v in flip else v for v in vals_g]
+    df['geo'] = pd.Series(vals_g, dtype=object, index=df.index)
+  elif gd == 'string' and df['geo'].map(lambda v: isinstance(v, str)).all():
+    df['geo'] = df['geo'].astype('string')
   rl = panel.get('row_labels')
-  if permute and panel.get('perm_seed'):
+  ro = panel.get('row_order')
+  if permute and ro:
+    # rows as a database export would deliver them: sorted, but not by (geo, ascending date)
+    key_g = df['geo'].astype(str)
+    if ro == 'geo-asc-date-desc':
+      order = sorted(range(len(df)), key=lambda i: (key_g.iloc[i], -pd.Timestamp(df['date'].iloc[i]).value))
+    elif ro == 'geo-asc-date-perm':
+      rank = {d: r for r, d in enumerate(np.random.RandomState(panel.get('perm_seed', 0) % (2 ** 31)).permutation(sorted(set(df['date']))))}
+      order = sorted(range(len(df)), key=lambda i: (key_g.iloc[i], rank[df['date'].iloc[i]]))
+    else:
+      order = sorted(range(len(df)), key=lambda i: (-pd.Timestamp(df['date'].iloc[i]).value, key_g.iloc[i]))
+    df = df.iloc[order].reset_index(drop=True)
+  elif permute and panel.get('perm_seed'):
     rs = np.random.RandomState(panel['perm_seed'] % (2 ** 31))
     df = df.iloc[rs.permutation(len(df))]
     if rl != 'kept':
@@ -520,10 +542,32 @@ def run_search(case, method, seed_numpy=True, history=None):
                    volume_ratio_tolerance=(None if real['volume_ratio_tolerance'] is not None else 4.0),
                    treatment_geos_range=(None if real['treatment_geos_range'] is not None else (1, 2)),
                    control_geos_range=(None if real['control_geos_range'] is not None else (1, 2)))
+      # ... including the fields that decide which geos take part (the searcher re-derives its geo list from the live
+      # parameters on every access): the decoy drops the largest / most expensive geos or none at all
+      sp = case.space
+      real.update({k: case.kwargs.get(k) for k in ('n_geos_max', 'treatment_share_range', 'budget_range')})
+      decoy['n_geos_max'] = None if real['n_geos_max'] is not None else max(2, len(sp.geos) - 1)
+      shares = sorted(sp.share.values())
+      if real['treatment_share_range'] is not None:
+        decoy['treatment_share_range'] = None
+      elif len(shares) >= 3 and shares[-1] > shares[-2] * 1.001 and 0 < shares[-2] * 1.0005 < 1:
+        decoy['treatment_share_range'] = (shares[0] * 0.5, shares[-2] * 1.0005)        # the largest geo is too large
+      if real['budget_range'] is not None:
+        decoy['budget_range'] = None
+      elif case.kwargs.get('iroas') and getattr(sp, 'gimp', None):
+        imps = sorted(v for v in sp.gimp.values() if v == v and v > 0)
+        if len(imps) >= 3:
+          decoy['budget_range'] = (0.0, imps[len(imps) // 2] / case.kwargs['iroas'] * 1.0005)   # about half of the geos over budget
+      decoy = {k: v for k, v in decoy.items() if v is not None}
       c2 = Case()
       c2.__dict__.update(case.__dict__)
       c2.kwargs = decoy
-      mm, par = build_mm(c2)
+      try:
+        mm, par = build_mm(c2)
+      except ValueError:
+        # the decoy values were not accepted together: plain construction
+        mm, par = build_mm(case)
+        real = {}
       try:
         getattr(mm, method)()
       except ValueError:
